@@ -105,14 +105,15 @@ Print Assumptions C03_never_half_transitioned.
    transitions (on_run, on_wait, on_finish, on_kill, on_except, on_running, on_waiting, on_finished, on_excepted, on_killed,
    on_exit_running, on_exit_waiting, on_terminated, on_close), any occurrence index k, any program, listener scripts with
    re-entrant control calls, callbacks and schedule: at every point between two environment events, if the fault has fired
-   (hook h has been called more than k times) the state is EXCEPTED e.  In particular the transition during which it fired was
-   completed to EXCEPTED before the enclosing operation returned, and nothing afterwards (further requests, listeners, the
-   remaining callbacks) changes that.  Proof: Life/LifeExc.v on top of LifeEsc. *)
+   (hook h has been called more than k times) the state is EXCEPTED e, the future raises e and the process is closed — also
+   when the hook that failed was on_terminated or on_close of a state (FINISHED, KILLED) that had already been entered.  In
+   particular the transition during which it fired was completed to EXCEPTED before the enclosing operation returned, and
+   nothing afterwards (further requests, listeners, the remaining callbacks) changes that.  Proof: Life/LifeExc.v on LifeEsc. *)
 Theorem C03_fault_ends_excepted_every_run :
   forall c es w h k e,
     run c es = Some w -> ~ In ECancelFuture es ->
     cf_fault c = Some (h, k, e) -> LifeExc.smhook h = true -> k < nat_assoc h (occ w) ->
-    st w = Some (SExcepted e).
+    st w = Some (SExcepted e) /\ pfut w = PfExn e /\ closed w = true.
 Proof. exact LifeExc.fault_ends_excepted. Qed.
 Print Assumptions C03_fault_ends_excepted_every_run.
 
